@@ -145,7 +145,7 @@ vars == <<ia, ib>>
 
 ASide == {i \in 1 .. NCat : i % Stride = Offset % Stride}
 
-Init == /\ ia \in (IF Emit = "relate" THEN ASide ELSE 1 .. NCat)
+Init == /\ ia \in (IF Emit \in {"relate", "distance"} THEN ASide ELSE 1 .. NCat)
         /\ ib = 0
 
 W == 4 * N + 3
@@ -160,6 +160,13 @@ CoordPosCase(i) ==
     [op |-> "coordpos", id |-> <<i>>, g |-> Cat[i], lo |-> -1, hi |-> 4 * N + 1,
      pos |-> [k \in 1 .. W * W |-> CatPos[i][<<((k - 1) \div W) - 1, ((k - 1) % W) - 1>>]]]
 
+\* C07 on the same catalogue: exact squared Euclidean distance = 0 iff the operands intersect (by the matrix), else the minimum
+\* over pairs of segments (points are degenerate segments); pairs with an empty operand are not emitted
+DistanceCase(i, j) ==
+    LET im == IMofMaps(CatPos[i], CatPos[j], F) IN
+    [op |-> "distance", id |-> <<i, j>>, a |-> Cat[i], b |-> Cat[j],
+     d2 |-> IF ImIntersects(im) THEN <<0, 1>>
+            ELSE RatNorm(SetRatMin({SegSegD2(s[1], s[2], t[1], t[2]) : s \in Segs(Cat[i]), t \in Segs(Cat[j])}))]
 EmitRelate == Emit \in {"relate", "both", "relatepool"}
 EmitCoord  == Emit \in {"coordpos", "both"}
 EmitPool   == Emit \in {"pool", "relatepool"}
@@ -169,6 +176,9 @@ Next == /\ ib = 0
         /\ \/ /\ EmitRelate /\ ia \in ASide
               /\ ib' \in 1 .. NCat
               /\ PrintT(<<"CASE", ToJson(RelateCase(ia, ib'))>>)
+           \/ /\ Emit = "distance" /\ ia \in ASide
+              /\ ib' \in {j \in 1 .. NCat : Segs(Cat[ia]) # {} /\ Segs(Cat[j]) # {}}
+              /\ PrintT(<<"CASE", ToJson(DistanceCase(ia, ib'))>>)
            \/ /\ EmitCoord
               /\ ib' = -1
               /\ PrintT(<<"CASE", ToJson(CoordPosCase(ia))>>)
